@@ -301,6 +301,48 @@ inline void all_models(vh::rng_t& rng, const bool thorough, const process_t& pro
             std::ostringstream info;
             info << "wlearners=" << model.wlearners().size() << ";bias=" << model.bias().size();
             check_model("gboost", model, [] { return gboost_model_t{}; }, dataset, info.str(), process, fail);
+            // observational identity beyond predictions: the re-read model has the same prototype pool and the same weak learners
+            // (type ids, parameters, serialised bytes) -- a re-fit of the loaded model boosts from its prototypes
+            const auto same_pool = [&](const gboost_model_t& a, const char* what)
+            {
+                try
+                {
+                    auto               b = gboost_model_t{};
+                    std::istringstream stream(to_bytes(a));
+                    if (!::nano::read(stream, b)) { fail(std::string("ROUNDTRIP gboost ") + what + ": valid stream rejected"); return; }
+                    const auto cmp = [&](const rwlearners_t& la, const rwlearners_t& lb, const char* which)
+                    {
+                        bool same = la.size() == lb.size();
+                        for (size_t i = 0; same && i < la.size(); ++i)
+                        {
+                            same = la[i]->type_id() == lb[i]->type_id() && la[i]->parameters() == lb[i]->parameters() &&
+                                   to_bytes(*la[i]) == to_bytes(*lb[i]);
+                        }
+                        if (!same)
+                        {
+                            std::string ta, tb;
+                            for (const auto& w : la) ta += w->type_id() + ",";
+                            for (const auto& w : lb) tb += w->type_id() + ",";
+                            fail(std::string("ROUNDTRIP gboost ") + what + ": " + which + " of the re-read model differ: written [" + ta +
+                                 "] re-read [" + tb + "]");
+                        }
+                    };
+                    cmp(a.prototypes(), b.prototypes(), "prototypes");
+                    cmp(a.wlearners(), b.wlearners(), "weak learners");
+                }
+                catch (const std::exception& e) { fail(std::string("ROUNDTRIP gboost ") + what + " exception: " + e.what()); }
+            };
+            same_pool(model, "fitted");
+            {
+                // configured but not fitted: one prototype with a non-default parameter
+                auto fresh = gboost_model_t{};
+                auto protos = rwlearners_t{};
+                protos.emplace_back(wlearner_t::all().get("dtree"));
+                protos.back()->parameter("wlearner::dtree::max_depth") = 2 + static_cast<int>(rng.range(0, 2));
+                protos.emplace_back(wlearner_t::all().get("stump"));
+                fresh.prototypes(std::move(protos));
+                same_pool(fresh, "configured");
+            }
         }
     }
 }
